@@ -8,7 +8,7 @@ Model of the CDC delivery pipeline of ONE node (C25). (File/namespace `CdcPipe`,
                  op), mainLoop (batch → FIFO keyed by the highest index in the batch),
                  leaderLoop (FIFO → endpoint with unbounded retries, HWM := key on success),
                  leaderHWMLoop (`tick`: broadcast + prune), followerLoop (`hwm n`: prune),
-                 NewService (`restart`: HWM := firstKey-1)
+                 NewService (`restart`: HWM := 0)
   cdc/fifo.go    the disk queue (RqModel.Fifo, proved in C26)
   store          log entries applied in index order; after a restart raft replays every
                  entry above the last snapshot (`snap`); `sync` = snapshot (flush first).
@@ -96,6 +96,9 @@ structure St where
   /-- what-if switch used only by a witness theorem: a streamer that keeps the index.
   The tree (and the driver) has `false`. -/
   keepIdx : Bool := false
+  /-- what-if switch used only by a witness theorem: `NewService` deriving the HWM from the
+  first FIFO key (first key - 1), as it did before the `fix:` commit. The tree starts at 0. -/
+  hwmFromFirstKey : Bool := false
   hwm : Nat := 0
   batcher : List Group := []
   fifo : Q Batch := {}
@@ -227,7 +230,7 @@ def stepCore (s : St) : Op → St
     let q := reopen s.fifo
     let fk := firstKey q
     let s1 : St := { s with batcher := [], fifo := q, leader := false, held := none,
-                            hwm := fk - 1, leaderPersisted := 0, followerPersisted := 0, hwmChan := [],
+                            hwm := (if s.hwmFromFirstKey then fk - 1 else 0), leaderPersisted := 0, followerPersisted := 0, hwmChan := [],
                             lastFed := 0, front := max s.snap q.highest }
     (s.log.filter (fun e => decide (s.snap < e.idx))).foldl applyEntry s1
 
@@ -236,6 +239,40 @@ def stepOp (s : St) (op : Op) : St := pumpAll (stepCore s op)
 def run (s : St) : List Op → St
   | [] => s
   | op :: rest => run (stepOp s op) rest
+
+/-! ### entries still in the hand-off channel when the next operation arrives
+
+The service picks groups up from the hand-off channel `in` on its own goroutine. `run` above
+describes operations applied at quiescent points. `OpQ.entryQueued` is an entry whose groups
+are still in the channel when the NEXT operation arrives. Every operation simply finds them
+handled first — except the snapshot sync, which is served by the SAME `select` as the
+channel: `drainOnSync = true` (the tree: the sync first drains the channel) or `false` (before
+the `fix:` commit: the flush could overtake them). -/
+
+inductive OpQ where
+  | op (o : Op)
+  | entryQueued (e : Entry)
+deriving Repr, DecidableEq
+
+structure StQ where
+  s : St := {}
+  queued : List Entry := []
+deriving Repr
+
+/-- the queued groups reach writeToBatcher -/
+def drainHand (q : StQ) : StQ :=
+  { s := q.queued.foldl (fun s e => pumpAll (applyEntry s e)) q.s, queued := [] }
+
+def stepHand (drainOnSync : Bool) (q : StQ) : OpQ → StQ
+  | .entryQueued e => { s := { q.s with log := q.s.log ++ [e] }, queued := q.queued ++ [e] }
+  | .op .sync =>
+    if drainOnSync then { s := stepOp (drainHand q).s .sync, queued := [] }
+    else drainHand { s := stepOp q.s .sync, queued := q.queued }   -- the flush overtakes them
+  | .op o => { s := stepOp (drainHand q).s o, queued := [] }
+
+def runHand (drainOnSync : Bool) (q : StQ) : List OpQ → StQ
+  | [] => q
+  | o :: rest => runHand drainOnSync (stepHand drainOnSync q o) rest
 
 /-! ### line protocol
 `reset <batchSz> <loopback 0|1> [maxRetries]` → `ok`
@@ -247,6 +284,7 @@ deliveries since the previous line: `key:idx/e.j+e.j,idx/...;key:...` or `-`
 
 structure DState where
   s : St := {}
+  queued : List Entry := []
   seen : Nat := 0
   seenDrop : Nat := 0
 
@@ -283,7 +321,7 @@ def parseOp : List String → Option Op
   | ["restart"] => some .restart
   | _ => none
 
-def step (d : DState) (line : String) : DState × String :=
+def stepLine (d : DState) (line : String) : DState × String :=
   match words line with
   | ["stream", k, tx, st] =>
     -- the streamer alone: the groups one applied entry hands to the service
@@ -310,6 +348,19 @@ def step (d : DState) (line : String) : DState × String :=
     match parseOp ws with
     | some op => obs d (stepOp d.s op)
     | none => (d, "bad-op")
+
+/-- `qentry <idx> <tx> <stmts>` → `queued`: the entry's groups stay in the hand-off channel;
+any later line first lets the service pick them up (the tree drains them on a sync too) -/
+def step (d : DState) (line : String) : DState × String :=
+  match words line with
+  | ["qentry", k, tx, st] =>
+    match k.toNat?, bitTok tx, natList st with
+    | some k, some tx, some st =>
+      ({ d with s := { d.s with log := d.s.log ++ [⟨k, tx, st⟩] }, queued := d.queued ++ [⟨k, tx, st⟩] }, "queued")
+    | _, _, _ => (d, "bad-op")
+  | _ =>
+    let q := drainHand { s := d.s, queued := d.queued }
+    stepLine { d with s := q.s, queued := [] } line
 
 def init : DState := {}
 
